@@ -113,7 +113,13 @@ class Interp:
         x, y = _raw(a), _raw(b)
         if isinstance(x, Obj) or isinstance(y, Obj):
             raise Unsupported("comparison of aggregates at line %s" % node.get("line"))
-        return {"<": x < y, ">": x > y, "<=": x <= y, ">=": x >= y, "==": x == y, "!=": x != y}[op]
+        if op == "==":
+            return x == y
+        if op == "!=":
+            return x != y
+        if x is None or y is None or isinstance(x, Ref) or isinstance(y, Ref):
+            raise Unsupported("ordering comparison of pointers / null at line %s" % node.get("line"))
+        return {"<": x < y, ">": x > y, "<=": x <= y, ">=": x >= y}[op]
 
     # -- expressions ---------------------------------------------------------
     def ev(self, e):
